@@ -27,7 +27,8 @@ Agreement(c, s) ==
   /\ c.ems = s.ems /\ c.etm = s.etm
   /\ c.alpn = s.alpn /\ c.sni = s.sni
   /\ c.sendLimit = s.recvLimit /\ c.recvLimit = s.sendLimit
-  /\ c.srvChainH = s.srvChainH /\ c.cltChainH = s.cltChainH
+  \* certificate chains exchanged in this handshake (a resumed handshake exchanges none: reported as "")
+  /\ (c.resumed = s.resumed => c.srvChainH = s.srvChainH /\ c.cltChainH = s.cltChainH)
   \* the (EC)DHE group is not among the values the property lists; where both ends report it, it must agree
   /\ (c.group # "" /\ s.group # "" => c.group = s.group)
 
